@@ -401,7 +401,9 @@ func runC03(cw *caseWriter, tier string, seed uint64) {
 		runScenarios(cw, 1, seed*100000, 100, 12)
 		runScenarios(cw, 2, seed*100000, 40, 12)
 		runScenarios(cw, 13, seed*100000, 40, 12)
+		runScenarios(cw, 20, seed*100000, 16, 8) // a deposed leader whose replication goroutines are still running
 	} else {
+		runScenarios(cw, 20, seed*100000, 300, 8)
 		runScenarios(cw, 1, seed*100000, 2500, 12)
 		runScenarios(cw, 2, seed*100000, 600, 12)
 		runScenarios(cw, 13, seed*100000, 800, 12)
